@@ -18,7 +18,7 @@ def run(ck: Check, repo: Repo) -> None:
                        "that the critic's value of the final next observation is what the critic would return at run time"]
     ck.trusted += ["helper summaries: vectorize_experiences_by_agent(dim=d) stacks per-agent (T, E) tensors on axis d; "
                    "concatenate_experiences_into_batches concatenates per-agent (T, E, ...) tensors on axis 0 (agent-major); "
-                   "flatten_experiences swaps the first two axes and merges them; reshape is row-major"]
+                   "reshape is row-major (the axis order flatten_experiences merges in is derived from its code, C17.6)"]
     ck.rule("C17.1", "GAE recursion normal form: A_t = r_t + gamma*V_next*nt - V_t + gamma*lambda*nt*A_{t+1}; V_next is V_{t+1} (critic of the final next "
                      "observation at the last step); nt = 1 - done_{t+1} (1 - next_done at the last step); returns = A + V")
     ck.rule("C17.2", "no leak across episodes: substituting done_{t+1} = 1 removes every term containing V_{t+1} or A_{t+1} from A_t")
@@ -28,6 +28,8 @@ def run(ck: Check, repo: Repo) -> None:
     ck.rule("C17.5", "one agent order and one axis convention for a shared policy's rollout: IPPO groups every experience component in self.agent_ids "
                      "order; the stacking helpers iterate the group's dictionary as given (no re-ordering); per-step components are stacked on axis 1 "
                      "(time, agent, env) and the final-step components, which have no time axis, on axis 0 (agent, env)")
+    from ._c17_r3b import run_r3b
+    run_r3b(ck, repo)
     _stacking(ck, repo)
     for modname, q, depth in LEARNERS:
         fn = repo.fn(modname, q)
@@ -144,28 +146,20 @@ def _has_role(tb: TermBuilder, a: Atom, role: str) -> bool:
 
 
 def _gae(ck: Check, repo: Repo, fn: Fn, depth: int) -> None:
-    cfg = CFG(fn.node)
-    tb = TermBuilder(repo, fn, cfg=cfg, depth=depth)
+    from ._c17_r3b import gae_model, pretty
+    M = gae_model(repo, fn, depth)
+    cfg, tb, R = M.cfg, M.tb, M.R
     label = fn.qualname
-    # the recursion statement: X[t] = carry = expr   (two targets) inside a reversed(range(..)) loop
-    rec_nodes = [n for n in cfg.live_nodes() if n.kind == "stmt" and isinstance(n.ast, ast.Assign) and len(n.ast.targets) == 2
-                 and any(isinstance(t, ast.Subscript) for t in n.ast.targets) and any(isinstance(t, ast.Name) for t in n.ast.targets)]
-    if len(rec_nodes) != 1:
-        raise AnalysisError(f"{label}: GAE recursion statement (A[t] = carry = ...) not found ({len(rec_nodes)} candidates)")
-    rn = rec_nodes[0]
-    sub_t = [t for t in rn.ast.targets if isinstance(t, ast.Subscript)][0]
-    carry = [t for t in rn.ast.targets if isinstance(t, ast.Name)][0].id
-    loops = [l for l in cfg.live_nodes() if l.kind == "for" and any(x is rn.ast for x in ast.walk(l.ast))]
-    if not loops:
-        raise AnalysisError(f"{label}: GAE loop not found")
-    L = loops[-1]
+    # the recursion, found by its data flow: the store into the advantages buffer inside the backward loop (X[t] = carry = expr, carry = expr; X[t] = carry,
+    # X[t] += expr ...); loop-carried successors are resolved to what the previous iteration assigned (see _c17_r3b)
+    rn, L, sub_t, carry = R.node, R.loop, R.target, R.carry
     it = L.ast.iter
     ok = isinstance(it, ast.Call) and call_name(it) == "reversed" and isinstance(it.args[0], ast.Call) and call_name(it.args[0]) == "range" and len(it.args[0].args) == 1
     ck.ob("C17.1", fn, it, ok, f"{label}: the recursion runs backwards over all time steps (reversed(range(T)))")
-    tvar = L.ast.target.id if isinstance(L.ast.target, ast.Name) else None
-    ck.ob("C17.1", fn, sub_t, tvar is not None and dotted(sub_t.slice) == tvar, f"{label}: A is written at the current time index")
-    T = tb.term(rn.ast.value, rn)
-    tt = tb.term(ast.Name(id=tvar, ctx=ast.Load()), rn)
+    tvar = R.tvar
+    tt = R.tt
+    ck.ob("C17.1", fn, sub_t, tvar is not None and tb.term(sub_t.slice, rn) == tt, f"{label}: A is written at the current time index")
+    T = R.term
 
     def idx_is(a: Atom, off: int) -> bool:
         # atom idx(<base>)[t + off]
@@ -176,20 +170,13 @@ def _gae(ck: Check, repo: Repo, fn: Fn, depth: int) -> None:
 
     gam = Poly.atom("attr:self.gamma")
     lam = Poly.atom("attr:self.gae_lambda")
-    alts = expand_phi(tb, T, limit=64, rounds=4)
+    alts = M.alts
     ck.floor("C17.1", len(alts), 2, f"{label}: alternatives of the recursion (last step / earlier steps)")
     n_ok = 0
-    for A in alts:
-        atoms = {k: tb.atoms[k] for k in A.atoms() if k in tb.atoms}
-        done_atoms = [k for k, a in atoms.items() if (_has_role(tb, a, "done") and not _has_role(tb, a, "value")) or _has_role(tb, a, "next_done")]
-        rew = [k for k, a in atoms.items() if _has_role(tb, a, "reward") and not _has_role(tb, a, "done")]
-        vals = [k for k, a in atoms.items() if _has_role(tb, a, "value")]
-        boot = [k for k, a in atoms.items() if a.kind == "call" and _has_role(tb, a, "next_obs")]
-        recs = [k for k, a in atoms.items() if a.kind == "rec"]
-        carry_zero = not recs  # alternative with carry = 0 (first iteration)
-        # ---- C17.2: done := 1 kills next-step terms
+    for al in alts:
+        A, atoms, done_atoms, rew, vals, boot, recs, v_next = al.poly, al.atoms, al.done_atoms, al.rew, al.vals, al.boot, al.recs, al.v_next
+        # ---- C17.2: done_(t+1) := 1 kills next-step terms
         A1 = A.subst({k: Poly.const(1) for k in done_atoms})
-        v_next = [k for k in vals if idx_is(atoms[k], 1)] + boot
         leak = [m for m in A1.t if any(k in v_next or k in recs for k, _ in m)]
         ck.ob("C17.2", fn, rn.ast, bool(done_atoms) and not leak,
               f"{label}: with done_(t+1) = 1 the advantage at t contains neither V_(t+1) nor A_(t+1)",
@@ -197,7 +184,7 @@ def _gae(ck: Check, repo: Repo, fn: Fn, depth: int) -> None:
               construct=f"{label}: masking of alternative {n_ok + 1} [{', '.join(sorted(x[:40] for x in done_atoms))}]")
         # ---- C17.1: normal form at done := 0
         A0 = A.subst({k: Poly.const(0) for k in done_atoms})
-        v_t = [k for k in vals if idx_is(atoms[k], 0)]
+        v_t = al.v_t
         ok_form = len(rew) == 1 and idx_is(atoms[rew[0]], 0) and len(v_t) == 1 and len(v_next) == 1
         want = None
         if ok_form:
@@ -210,50 +197,131 @@ def _gae(ck: Check, repo: Repo, fn: Fn, depth: int) -> None:
               detail=f"got {A0.key()[:260]}" + (f" ; expected {want.key()[:260]}" if want is not None else f" ; rewards {len(rew)}, V_t {len(v_t)}, V_next {len(v_next)}"),
               construct=f"{label}: recursion form, alternative {n_ok + 1}")
         n_ok += 1
-    # ---- branch pairing: last step uses (next_done, critic(next_state)); other steps use (dones[t+1], values[t+1])
+
+    # ---- pairing of the two cases: the last step uses (next_done, critic(next_state)); other steps use (dones[t+1], values[t+1])
+    def pairing(s: ast.AST, v: Poly, is_last: bool) -> None:
+        roles = tb.roles(v)
+        if "next_done" in roles or ("done" in roles and "value" not in roles):
+            okb = ("next_done" in roles) == is_last
+            if not is_last:
+                okb = okb and any(idx_is(a, 1) for a, _, _ in walk_atoms(tb, v) if _has_role(tb, a, "done"))
+            # form 1 - flag
+            flags = [k for k in v.atoms() if k in tb.atoms and (_has_role(tb, tb.atoms[k], "done") or _has_role(tb, tb.atoms[k], "next_done"))]
+            okb = okb and len(flags) == 1 and v == Poly.const(1) - Poly.atom(flags[0])
+            ck.ob("C17.1", fn, s, okb, f"{label}: {'last step' if is_last else 'earlier steps'}: not-terminal factor is 1 - {'next_done' if is_last else 'dones[t+1]'}",
+                  detail=f"{v.key()[:120]}")
+        elif "value" in roles or "next_obs" in roles:
+            okb = ("next_obs" in roles) == is_last
+            if not is_last:
+                a = single_atom(tb, v)
+                okb = okb and a is not None and idx_is(a, 1) and _has_role(tb, a, "value")
+            else:
+                okb = okb and mentions(tb, v, lambda a: a.kind == "call" and "critic" in a.key.split("(")[0])
+            ck.ob("C17.1", fn, s, okb, f"{label}: {'last step bootstraps from critic(next_state)' if is_last else 'earlier steps use values[t+1]'}",
+                  detail=f"{v.key()[:120]}")
+
+    # the case split is made in ONE way: an if-test on the time index, loop-carried successors (initialised with the last step's values before the loop and
+    # re-assigned at the end of every iteration), or shifted successor arrays cat([X[1:], Y])
     tests = [n for n in cfg.live_nodes() if n.kind == "test" and isinstance(n.stmt, ast.If) and any(x is n.stmt for x in ast.walk(L.ast))
-             and isinstance(n.ast, ast.Compare) and isinstance(n.ast.ops[0], ast.Eq)]
-    ck.ob("C17.1", fn, tests[0].ast if tests else L.ast, len(tests) == 1, f"{label}: one case split between the last step and the others", construct=f"{label}: last-step test")
-    if len(tests) == 1:
-        t = tests[0]
+             and isinstance(n.ast, ast.Compare) and isinstance(n.ast.ops[0], (ast.Eq, ast.NotEq))]
+    # several if-statements on the same comparison (one per conditional assignment) are one case split
+    # ... and so is a conditional expression on it (`x = a if t == T - 1 else b`, when the front end has not already loaded it as a statement)
+    ifexps = [n for n in cfg.live_nodes() if n.kind == "stmt" and isinstance(n.ast, ast.Assign) and any(x is n.ast for x in ast.walk(L.ast)) and isinstance(n.ast.value, ast.IfExp)
+              and isinstance(n.ast.value.test, ast.Compare) and len(n.ast.value.test.ops) == 1 and isinstance(n.ast.value.test.ops[0], (ast.Eq, ast.NotEq))]
+    conds = {frozenset((tb.term(c.left, n).key(), tb.term(c.comparators[0], n).key())) for n, c in [(n, n.ast) for n in tests] + [(n, n.ast.value.test) for n in ifexps]}
+    carried = [R.carried[k] for k in sorted(R.carried)]
+    mechanisms = len(conds) + (1 if carried else 0) + (1 if R.shifts else 0)
+    ck.ob("C17.1", fn, tests[0].ast if tests else L.ast, mechanisms == 1, f"{label}: one case split between the last step and the others",
+          detail=f"if-tests on the time index: {len(tests)}; loop-carried successors: {[c.name for c in carried]}; shifted successor arrays: {len(R.shifts)}", construct=f"{label}: last-step test")
+    for t in tests if mechanisms == 1 else []:
         l, r = tb.term(t.ast.left, t), tb.term(t.ast.comparators[0], t)
         steps = tb.term(it.args[0].args[0], L) if ok else None
         ck.ob("C17.1", fn, t.ast, steps is not None and ((l == tt and r == steps - Poly.const(1)) or (r == tt and l == steps - Poly.const(1))),
               f"{label}: the special case is exactly t == T - 1", detail=f"{l.key()[:60]} == {r.key()[:60]}")
-        for branch, is_last in ((t.stmt.body, True), (t.stmt.orelse, False)):
+        eq = isinstance(t.ast.ops[0], ast.Eq)
+        for branch, is_last in ((t.stmt.body, eq), (t.stmt.orelse, not eq)):
             for s in branch:
                 if not isinstance(s, ast.Assign):
                     continue
                 n = cfg.node_of(s)
-                v = tb.term(s.value, n)
-                roles = tb.roles(v)
-                if "next_done" in roles or ("done" in roles and "value" not in roles):
-                    okb = ("next_done" in roles) == is_last
-                    if not is_last:
-                        okb = okb and any(idx_is(a, 1) for a, _, _ in walk_atoms(tb, v) if _has_role(tb, a, "done"))
-                    # form 1 - flag
-                    flags = [k for k in v.atoms() if k in tb.atoms and (_has_role(tb, tb.atoms[k], "done") or _has_role(tb, tb.atoms[k], "next_done"))]
-                    okb = okb and len(flags) == 1 and v == Poly.const(1) - Poly.atom(flags[0])
-                    ck.ob("C17.1", fn, s, okb, f"{label}: {'last step' if is_last else 'earlier steps'}: not-terminal factor is 1 - {'next_done' if is_last else 'dones[t+1]'}",
-                          detail=f"{v.key()[:120]}")
-                elif "value" in roles or "next_obs" in roles:
-                    okb = ("next_obs" in roles) == is_last
-                    if not is_last:
-                        a = single_atom(tb, v)
-                        okb = okb and a is not None and idx_is(a, 1) and _has_role(tb, a, "value")
-                    else:
-                        okb = okb and mentions(tb, v, lambda a: a.kind == "call" and "critic" in a.key.split("(")[0])
-                    ck.ob("C17.1", fn, s, okb, f"{label}: {'last step bootstraps from critic(next_state)' if is_last else 'earlier steps use values[t+1]'}",
-                          detail=f"{v.key()[:120]}")
-    # carry starts at zero
-    inits = [d for d in cfg.defs_reaching(L, carry) if not any(x is d.stmt for x in ast.walk(L.ast))]
-    ck.ob("C17.1", fn, inits[0].ast if inits else L.ast, len(inits) == 1 and const_value(cfg.value_of_def(inits[0], carry)) == 0,
-          f"{label}: the recursion starts with A_T = 0")
+                pairing(s, tb.term(s.value, n), is_last)
+    for n in ifexps if mechanisms == 1 else []:
+        c = n.ast.value.test
+        l, r = tb.term(c.left, n), tb.term(c.comparators[0], n)
+        steps = tb.term(it.args[0].args[0], L) if ok else None
+        ck.ob("C17.1", fn, c, steps is not None and ((l == tt and r == steps - Poly.const(1)) or (r == tt and l == steps - Poly.const(1))),
+              f"{label}: the special case is exactly t == T - 1", detail=f"{l.key()[:60]} == {r.key()[:60]}")
+        eq = isinstance(c.ops[0], ast.Eq)
+        pairing(n.ast.value.body, tb.term(n.ast.value.body, n), eq)
+        pairing(n.ast.value.orelse, tb.term(n.ast.value.orelse, n), not eq)
+    if carried and mechanisms == 1:
+        # the values defined before the loop serve the first iteration (t = T - 1: the loop runs backwards from T - 1, checked above); the in-loop
+        # re-assignment serves the next iteration, i.e. step t reads what step t+1 left: its value with t -> t+1
+        for c in carried:
+            ck.ob("C17.1", fn, c.inloop[0].ast, c.every_iteration and c.shifted is not None and len(c.inits) >= 1,
+                  f"{label}: the loop-carried successor is set before the loop (last step) and re-assigned in every iteration (earlier steps read what step t+1 left)",
+                  detail=f"definitions before the loop: {[d.lineno for d in c.inits]}; in the loop: {[d.lineno for d in c.inloop]}; on every path to the next iteration: {c.every_iteration}",
+                  construct=f"{label}: loop-carried successor defined at {short(c.inloop[0].ast, 60)}")
+            for d in c.inits:
+                v = cfg.value_of_def(d, c.name)
+                if v is not None:
+                    pairing(d.ast, tb.term(v, d), True)
+            if c.shifted is not None:
+                for sh in expand_phi(tb, c.shifted, limit=8):
+                    pairing(c.inloop[0].ast, sh, False)
+    if R.shifts and mechanisms == 1:
+        # shifted successor arrays: cat([X[1:], Y])[k] is X[k+1] for the earlier steps and Y for the last one; it must be read at the current step
+        seen = set()
+        for sh in R.shifts:
+            key = (sh.x.key, sh.a, sh.y.key(), sh.k.key())
+            if key in seen:
+                continue
+            seen.add(key)
+            xr = {o[5:] for o in sh.x.origins if o.startswith("role:")}
+            yr = tb.roles(sh.y)
+            is_flag = "done" in xr and "value" not in xr
+            okb = sh.a == 1 and sh.k == tt and (("next_done" in yr) if is_flag else ("value" in xr and "next_obs" in yr and mentions(tb, sh.y, lambda a: a.kind == "call" and "critic" in a.key.split("(")[0])))
+            ck.ob("C17.1", fn, sh.node if sh.node is not None else rn.ast, okb,
+                  f"{label}: the shifted successor array is (X[1:] followed by the final {'flag next_done' if is_flag else 'bootstrap value critic(next_state)'}) and is read at the current step t: "
+                  f"{'1 - dones[t+1]' if is_flag else 'values[t+1]'} for earlier steps, the final one for the last step",
+                  detail=f"X[{sh.a}:] of roles {sorted(xr)}, final element of roles {sorted(yr)}, read at index {pretty(tb, R, sh.k - tt + Poly.atom('t'))}"
+                         + ("" if sh.k == tt else ": the element read there is the flag / value of step " + pretty(tb, R, sh.k - tt + Poly.atom('t') + Poly.const(sh.a)) + ", not of step t+1"),
+                  construct=f"{label}: shifted successor array of {'/'.join(sorted(xr)) or '?'} read at {'t' if sh.k == tt else ('t+1' if sh.k == tt + Poly.const(1) else 'another index')}")
+    if carry is not None:
+        # carry starts at zero
+        inits = [d for d in cfg.defs_reaching(L, carry) if not any(x is d.stmt for x in ast.walk(L.ast))]
+        ck.ob("C17.1", fn, inits[0].ast if inits else L.ast, len(inits) == 1 and const_value(cfg.value_of_def(inits[0], carry)) == 0,
+              f"{label}: the recursion starts with A_T = 0")
+    elif R.aug is None:
+        # the buffer itself carries A_(t+1) and every step is stored by the loop: the first iteration reads the element behind the last step, which must
+        # still hold its initial 0
+        from ._c17_r3b import elem
+        behind = elem(tb, R.init_term, R.bound, []) if R.init_term is not None and R.bound is not None else None
+        ck.ob("C17.1", fn, rn.ast, behind is not None and behind.const_value() == 0, f"{label}: the recursion starts with A_T = 0",
+              detail=f"element T of the advantages buffer before the loop: {behind.key()[:120] if behind is not None else '?'}", construct=f"{label}: advantage behind the last step")
+    else:
+        # the store accumulates onto what the buffer held before the loop (the TD errors) and the loop stops one step short: the last step keeps its initial
+        # content, which must be its TD error bootstrapped from critic(next_state) under 1 - next_done (A_T = 0)
+        from ._c17_r3b import elem
+        last = None
+        if R.init_term is not None and R.bound is not None:
+            last = [x for x in expand_phi(tb, elem(tb, R.init_term, R.bound, []), limit=16, rounds=6)]
+        good = []
+        for x in last or []:
+            at = {k: tb.atoms[k] for k in x.atoms() if k in tb.atoms}
+            rw = [k for k, a in at.items() if _has_role(tb, a, "reward") and not _has_role(tb, a, "done") and a.kind == "idx" and a.name == R.bound.key()]
+            vt = [k for k, a in at.items() if _has_role(tb, a, "value") and a.kind == "idx" and a.name == R.bound.key()]
+            bt = [k for k, a in at.items() if a.kind == "call" and _has_role(tb, a, "next_obs")]
+            nd = [k for k, a in at.items() if _has_role(tb, a, "next_done")]
+            if len(rw) == 1 and len(vt) == 1 and len(bt) == 1 and len(nd) == 1 and x == Poly.atom(rw[0]) + gam * Poly.atom(bt[0]) * (Poly.const(1) - Poly.atom(nd[0])) - Poly.atom(vt[0]):
+                good.append(x)
+        ck.ob("C17.1", fn, rn.ast, bool(good), f"{label}: the recursion starts with A_T = 0: the last step keeps r + gamma*critic(next_state)*(1 - next_done) - V",
+              detail=f"content of the buffer at the last step: {[pretty(tb, R, x) for x in (last or [])[:2]]}", construct=f"{label}: advantage of the last step")
     # returns = advantages + values
     # roles instead of spellings: the minibatch tensors are sampled from a 6-field tuple (states, actions, log-probs, advantages, returns,
     # values); "returns" is the local handed over as field 4, "values" the one handed over as field 5 (and it carries the value role)
     adv = dotted(sub_t.value)
-    fields = _sampled_fields(cfg, fn)
+    fields = M.fields
     ret_var, val_var = (fields[4], fields[5]) if fields is not None else (None, None)
     rets = [n for n in cfg.live_nodes() if ret_var is not None and n.kind == "stmt" and isinstance(n.ast, ast.Assign) and dotted(n.ast.targets[0]) == ret_var]
     ok = len(rets) == 1 and isinstance(rets[0].ast.value, ast.BinOp) and isinstance(rets[0].ast.value.op, ast.Add) \
@@ -295,18 +363,20 @@ def _sampled_fields(cfg: CFG, fn: Fn) -> Optional[List[str]]:
 
 # ------------------------------------------------------------------------------------------------ C17.4
 AX = Tuple[str, ...]
+_SCALAR: AX = ("SCALAR",)
 
 
 class Layout:
     """Axis-order signature of a rollout tensor, followed through reshaping code."""
 
-    def __init__(self, fn: Fn, cfg: CFG, multi_agent: bool):
+    def __init__(self, fn: Fn, cfg: CFG, multi_agent: bool, flatten_order: Optional[str] = "swap"):
         self.fn, self.cfg, self.ma = fn, cfg, multi_agent
+        self.flatten_order = flatten_order
         self.local_defs = {n.name: n for n in ast.walk(fn.node) if isinstance(n, ast.FunctionDef) and n is not fn.node}
 
     def of(self, e: ast.AST, at: Node, env: Optional[Dict[str, Optional[AX]]] = None, depth: int = 0) -> Optional[AX]:
         env = env or {}
-        if depth > 14:
+        if depth > 30:
             return None
         if isinstance(e, ast.Name):
             if e.id in env:
@@ -320,6 +390,8 @@ class Layout:
                 if v is None:
                     if isinstance(d.ast, ast.Assign) and isinstance(d.ast.targets[0], ast.Subscript):
                         continue  # element update keeps the layout of the container
+                    if isinstance(d.ast, ast.AugAssign) and isinstance(d.ast.target, ast.Subscript):
+                        continue  # ... so does an accumulating element update
                     if isinstance(d.ast, ast.Assign) and len(d.ast.targets) == 2:
                         continue
                     return None
@@ -328,6 +400,10 @@ class Layout:
             if outs and all(o == outs[0] for o in outs):
                 return outs[0]
             return None
+        if isinstance(e, ast.Constant) or (isinstance(e, ast.Attribute) and dotted(e).startswith("self.")):
+            return _SCALAR  # broadcast: takes the layout of the other operand
+        if isinstance(e, ast.Subscript) and isinstance(e.slice, ast.Slice):
+            return self.of(e.value, at, env, depth + 1)  # x[a:b] keeps the axes
         if isinstance(e, ast.Subscript):
             # element k of a tuple produced by a helper / unpack
             base = e.value
@@ -353,6 +429,8 @@ class Layout:
             return None
         if isinstance(e, ast.BinOp) and isinstance(e.op, (ast.Add, ast.Sub, ast.Mult)):
             a, b = self.of(e.left, at, env, depth + 1), self.of(e.right, at, env, depth + 1)
+            if a == _SCALAR or b == _SCALAR:
+                return b if a == _SCALAR else a
             return a if a == b else None
         if isinstance(e, ast.Call):
             cn = call_name(e)
@@ -391,6 +469,11 @@ class Layout:
                 return None
             if cn in ("torch.zeros_like", "torch.ones_like", "torch.empty_like") and e.args:
                 return self.of(e.args[0], at, env, depth + 1)
+            if cn in ("torch.cat", "torch.concat", "torch.concatenate", "np.concatenate") and e.args and isinstance(e.args[0], (ast.List, ast.Tuple)) \
+                    and const_value(get_kw(e, "dim", 1) or get_kw(e, "axis", 1) or ast.Constant(value=0)) == 0:
+                # rows appended along the leading (time) axis of the first operand: its other axes keep their order (that the appended final-step row is
+                # stacked agent-first like them is C17.5)
+                return self.of(e.args[0].elts[0], at, env, depth + 1) if e.args[0].elts else None
             return self._helper(name, list(e.args), e.keywords, at, env, depth)
         return None
 
@@ -413,8 +496,11 @@ class Layout:
         return None
 
     def _swap_merge(self, inner: Optional[AX]) -> Optional[AX]:
+        """what flatten_experiences does to the axis order — derived from its code (C17.6: the same for every rank), not assumed"""
         if inner is None or len(inner) < 2:
             return None
+        if self.flatten_order == "id":
+            return inner  # merges the two leading axes as they are
         l = list(inner)
         l[0], l[1] = l[1], l[0]
         return tuple(l)
@@ -446,7 +532,8 @@ def _alignment(ck: Check, repo: Repo, fn: Fn) -> None:
     label = fn.qualname
     samp = [c for c in calls_in(fn.node) if call_name(c).split(".")[-1] == "get_experiences_samples"]
     ck.floor("C17.4", len(samp), 1, f"{label}: minibatch sampling call", fn=fn)
-    lay = Layout(fn, cfg, "IPPO" in label)
+    from ._c17_r3b import flatten_reference
+    lay = Layout(fn, cfg, "IPPO" in label, flatten_reference(repo))
     for c in samp:
         n = cfg.node_of(c)
         star = [a for a in c.args if isinstance(a, ast.Starred)]
@@ -582,6 +669,60 @@ def _rollout(ck: Check, repo: Repo, fn: Fn) -> None:
 _PPO = "agilerl/algorithms/ppo.py"
 _IPPO = "agilerl/algorithms/ippo.py"
 _TOP = "agilerl/training/train_on_policy.py"
+_AU = "agilerl/utils/algo_utils.py"
+_FLAT_OLD = "        shape = arr.shape\n        if len(shape) < 3:\n            shape = (*shape, 1)\n\n        arr = arr.swapaxes(0, 1).reshape(shape[0] * shape[1], *shape[2:])\n        return arr\n"
+_GAE_OLD = """            advantages = torch.zeros_like(rewards).float()
+            last_gae_lambda = 0
+            for t in reversed(range(num_steps)):
+                if t == num_steps - 1:
+                    next_non_terminal = 1.0 - next_done
+                    nextvalue = {nv}
+                else:
+                    next_non_terminal = 1.0 - dones[t + 1]
+                    nextvalue = values[t + 1]
+
+                # Calculate delta (TD error)
+                delta = (
+                    rewards[t] + self.gamma * nextvalue * next_non_terminal - values[t]
+                )
+
+                # Use recurrence relation to compute advantage
+                advantages[t] = last_gae_lambda = (
+                    delta
+                    + self.gamma * self.gae_lambda * next_non_terminal * last_gae_lambda
+                )
+"""
+# TD errors of all steps at once, the loop only accumulates ({k} = t: right; t + 1: the flag of step t+2 gates A_(t+1))
+_GAE_VEC = """            next_values = torch.cat([values[1:], next_value])
+            next_non_terminal = 1.0 - torch.cat([dones[1:], next_done])
+            deltas = rewards + self.gamma * next_values * next_non_terminal - values
+            advantages = deltas.float().clone()
+            for t in reversed(range(num_steps - 1)):
+                advantages[t] += (
+                    self.gamma
+                    * self.gae_lambda
+                    * next_non_terminal[{k}]
+                    * advantages[t + 1]
+                )
+"""
+# successor value / flag carried from one iteration to the next instead of the if / else ({k} = step: right)
+_GAE_CARRIED = """            advantages = torch.zeros_like(rewards).float()
+            running_advantage = 0
+            following_value = next_value.squeeze()
+            non_terminal = 1.0 - next_done
+            for step in reversed(range(num_steps)):
+                td_error = (
+                    rewards[step]
+                    + self.gamma * following_value * non_terminal
+                    - values[step]
+                )
+                discount = self.gamma * self.gae_lambda
+                running_advantage = td_error + discount * non_terminal * running_advantage
+                advantages[step] = running_advantage
+
+                following_value = values[step]
+                non_terminal = 1.0 - dones[{k}]
+"""
 VARIANTS = [
     ("ppo-no-mask-on-value", _PPO, "rewards[t] + self.gamma * nextvalue * next_non_terminal - values[t]", "rewards[t] + self.gamma * nextvalue - values[t]", "fire", "C17.2"),
     ("ppo-no-mask-on-carry", _PPO, "+ self.gamma * self.gae_lambda * next_non_terminal * last_gae_lambda", "+ self.gamma * self.gae_lambda * last_gae_lambda", "fire", "C17.2"),
@@ -608,6 +749,56 @@ VARIANTS = [
     ("rollout-append-next-done", _TOP, "                    dones.append(done)\n", "                    dones.append(next_done)\n", "fire", "C17.3"),
     ("rollout-swapped-fields", _TOP, "                    dones,\n                    values,\n                    next_state,", "                    values,\n                    dones,\n                    next_state,", "fire", "C17.3"),
     # behaviour-preserving rename of a local (the rules must go by role, not by spelling)
+    # ---- round 3b
+    # C17.6: the flattening order must not depend on the rank (seed: 2-D arrays get an early `reshape(-1, 1)` without the axis swap)
+    ("flatten-2d-step-major", _AU, _FLAT_OLD,
+     "        if arr.ndim < 3:\n            # One scalar per step and environment -> column vector\n            return arr.reshape(-1, 1)\n\n        return arr.swapaxes(0, 1).reshape(-1, *arr.shape[2:])\n", "fire", "C17.6"),
+    ("flatten-2d-branch-assignment-step-major", _AU, _FLAT_OLD,
+     "        if arr.ndim < 3:\n            arr = arr.reshape(-1, 1)\n        else:\n            arr = arr.swapaxes(0, 1).reshape(-1, *arr.shape[2:])\n        return arr\n", "fire", "C17.6"),
+    ("flatten-early-return-same-order-ok", _AU, _FLAT_OLD,
+     "        if arr.ndim < 3:\n            return arr.swapaxes(0, 1).reshape(-1, 1)\n\n        return arr.swapaxes(0, 1).reshape(-1, *arr.shape[2:])\n", "silent", None),
+    ("flatten-pad-trailing-axis-ok", _AU, _FLAT_OLD,
+     "        if arr.ndim < 3:\n            arr = arr[..., None]\n        swapped = arr.swapaxes(0, 1)\n        return swapped.reshape(-1, *swapped.shape[2:])\n", "silent", None),
+    # C17.7 / Part B: the recursion is recognised by its data flow in other statement shapes
+    ("ippo-vectorised-td-mask-shifted", _IPPO, _GAE_OLD.replace("{nv}", "next_value.squeeze()"), _GAE_VEC.replace("{k}", "t + 1"), "fire", "C17.7"),
+    ("ippo-vectorised-td-ok", _IPPO, _GAE_OLD.replace("{nv}", "next_value.squeeze()"), _GAE_VEC.replace("{k}", "t"), "silent", None),
+    ("ppo-carried-successors-ok", _PPO, _GAE_OLD.replace("{nv}", "next_value.squeeze()"), _GAE_CARRIED.replace("{k}", "step"), "silent", None),
+    ("ppo-carried-successor-flag-own-step", _PPO, _GAE_OLD.replace("{nv}", "next_value.squeeze()"), _GAE_CARRIED.replace("{k}", "step - 1"), "fire", "C17"),
+    ("ppo-rollout-length-one-short", _PPO, "num_steps = rewards.size(0)\n", "num_steps = rewards.size(0) - 1\n", "fire", "C17.7"),
+    ("ppo-rollout-length-from-shape-ok", _PPO, "num_steps = rewards.size(0)\n", "num_steps = rewards.shape[0]\n", "silent", None),
+    ("ippo-rollout-length-by-len-ok", _IPPO, "num_steps = rewards.size(0)\n", "num_steps = len(rewards)\n", "silent", None),
+    ("ppo-last-step-test-negated-ok", _PPO, """                if t == num_steps - 1:
+                    next_non_terminal = 1.0 - next_done
+                    nextvalue = next_value.squeeze()
+                else:
+                    next_non_terminal = 1.0 - dones[t + 1]
+                    nextvalue = values[t + 1]
+""", """                if t != num_steps - 1:
+                    nextvalue = values[t + 1]
+                    next_non_terminal = 1.0 - dones[t + 1]
+                else:
+                    nextvalue = next_value.squeeze()
+                    next_non_terminal = 1.0 - next_done
+""", "silent", None),
+    ("ppo-last-step-by-conditional-expressions-ok", _PPO, """                if t == num_steps - 1:
+                    next_non_terminal = 1.0 - next_done
+                    nextvalue = next_value.squeeze()
+                else:
+                    next_non_terminal = 1.0 - dones[t + 1]
+                    nextvalue = values[t + 1]
+""", """                next_non_terminal = 1.0 - next_done if t == num_steps - 1 else 1.0 - dones[t + 1]
+                nextvalue = next_value.squeeze() if t == num_steps - 1 else values[t + 1]
+""", "silent", None),
+    ("ppo-last-step-by-conditional-expressions-flag-own-step", _PPO, """                if t == num_steps - 1:
+                    next_non_terminal = 1.0 - next_done
+                    nextvalue = next_value.squeeze()
+                else:
+                    next_non_terminal = 1.0 - dones[t + 1]
+                    nextvalue = values[t + 1]
+""", """                next_non_terminal = 1.0 - next_done if t == num_steps - 1 else 1.0 - dones[t]
+                nextvalue = next_value.squeeze() if t == num_steps - 1 else values[t + 1]
+""", "fire", "C17.1"),
+    ("ppo-carry-gated-by-current-done", _PPO, "+ self.gamma * self.gae_lambda * next_non_terminal * last_gae_lambda", "+ self.gamma * self.gae_lambda * (1.0 - dones[t]) * last_gae_lambda", "fire", "C17.7"),
     ("ppo-returns-renamed-ok", _PPO, "            returns = advantages + values\n\n        # Flatten experiences from (batch_size, num_envs, ...) to (batch_size*num_envs, ...)\n        # after checking if experiences are vectorized\n        experiences = (states, actions, log_probs, advantages, returns, values)",
      "            targets = advantages + values\n\n        experiences = (states, actions, log_probs, advantages, targets, values)", "silent", None),
 ]
